@@ -1,0 +1,17 @@
+//go:build verif
+
+package clock
+
+import "time"
+
+// VerifArmed returns the due times of the wake-ups currently pending in the mock clock
+// (verification hook for property C13; read-only).
+func (m *Mock) VerifArmed() []time.Time {
+	m.RLock()
+	defer m.RUnlock()
+	out := make([]time.Time, len(m.timers))
+	for i := range m.timers {
+		out[i] = m.timers[i].Time
+	}
+	return out
+}
